@@ -67,17 +67,22 @@ def impl_bed_op(line):
         score, r, g, b = tk.int(), tk.int(), tk.int(), tk.int()
         chrom_rel = tk.next() == "chrom"
         parent = make_parent(tk.next(), tk, max(ee + [0]), seq_name)
+        def selector(default_sym, default_id):
+            if sel.startswith("attr:"):
+                return sel[5:]                 # the name of another attribute of the record (getattr resolves it)
+            return {"sym": default_sym, "id": default_id}.get(sel, sel[4:].replace(VIS_SPACE, " "))
+
         if kind == "T":
             kw = {}
             if cs:
                 kw = dict(cds_starts=cs, cds_ends=ce, cds_frames=[CDSFrame.ZERO] * len(cs))
             iv = TranscriptInterval(es, ee, st, transcript_symbol=symbol, transcript_id=ident,
                                     sequence_name=seq_name, parent_or_seq_chunk_parent=parent, **kw)
-            name = {"sym": "transcript_symbol", "id": "transcript_id"}.get(sel, sel[4:].replace(VIS_SPACE, " "))
+            name = selector("transcript_symbol", "transcript_id")
         else:
             iv = FeatureInterval(es, ee, st, feature_name=symbol, feature_id=ident, sequence_name=seq_name,
                                  parent_or_seq_chunk_parent=parent)
-            name = {"sym": "feature_name", "id": "feature_id"}.get(sel, sel[4:].replace(VIS_SPACE, " "))
+            name = selector("feature_name", "feature_id")
         # call history: on every other line the SAME object is first exported in the other coordinate mode (and once
         # more in the requested one); the record must not depend on what was exported before
         import zlib
